@@ -402,6 +402,26 @@ inline int forked_ok(std::function<int()> f) {
   return (WIFEXITED(st) && WEXITSTATUS(st) == 0) ? 1 : 0;
 }
 
+// a call that is known (from the facts) to be undefined behaviour in-process is only PROBED, in a forked child:
+// line  U|entry|variant|ret:<code>|<handler codes>   or   U|entry|variant|signal:<n>|
+inline void forked_call(const char* entry, const std::string& variant, std::function<int()> f) {
+  std::fflush(stdout);
+  pid_t pid = fork();
+  if (pid == 0) {
+    seen.clear();
+    int r = 0; const char* how = "ret";
+    try { r = f(); } catch (...) { how = "escaped"; }
+    std::printf("U|%s|%s|%s:%d|%s\n", entry, variant.c_str(), how, r, seen_str().c_str());
+    std::fflush(stdout);
+    _exit(0);
+  }
+  if (pid < 0) return;
+  int st = 0; waitpid(pid, &st, 0);
+  if (!(WIFEXITED(st) && WEXITSTATUS(st) == 0))
+    std::printf("U|%s|%s|signal:%d|\n", entry, variant.c_str(), WIFSIGNALED(st) ? WTERMSIG(st) : -1);
+  ++cases;
+}
+
 // self-object case: `ccall(h)` calls the entry point on the handle, `mir(twin)` the C++ operation.
 // mutates: whether the handle type of self is non-const.  extra: additional output comparison (after both ran).
 template <class Dom>
